@@ -242,12 +242,48 @@ def checkC18 (p : PProject) (impl : Json) : PropOut := Id.run do
   return { model := mview, implView := iview, implFails := fails, nontrivial := !diags.isEmpty,
            notes := [s!"d:diagnostics={diags.length}", s!"d:value-diagnostics={nValue}"] }
 
+/-! ### C13 / C19 -/
+
+def accepted (impl : Json) : Bool :=
+  jstrD impl "configErr" = "" && jstrD impl "setupErr" = "" && jstrD impl "graphErr" = "" && jstrD impl "validateErr" = "" && jstrD impl "runErr" = ""
+
+def checkC13 (_p : PProject) (impl : Json) : PropOut := Id.run do
+  let det := (impl.getObjVal? "determinism").toOption.getD Json.null
+  if !accepted impl || det == Json.null then
+    return { model := Json.str "not-accepted", implView := Json.str "not-accepted", nontrivial := false, notes := ["d:not-accepted"] }
+  let n (k : String) := (jnat det k).toOption.getD 0
+  let mut fails : List String := []
+  if n "routesDistinct" ≠ 1 then fails := fails ++ [s!"routes-file-not-reproducible:{n "routesDistinct"}-distinct-contents-in-{n "runs"}-runs"]
+  if n "spec30Distinct" ≠ 1 then fails := fails ++ [s!"spec-3.0-not-reproducible:{n "spec30Distinct"}"]
+  if n "spec31Distinct" > 1 then fails := fails ++ [s!"spec-3.1-not-reproducible:{n "spec31Distinct"}"]
+  if n "specDistinctAcrossEngines" ≠ 1 then fails := fails ++ [s!"spec-depends-on-engine:{n "specDistinctAcrossEngines"}"]
+  if !(jboolD det "dateOnlyDifference") then fails := fails ++ ["routes-differ-beyond-the-date-comment"]
+  let view (j : Json) := Json.mkObj [("routesDistinct", (jnat j "routesDistinct").toOption.getD 0), ("spec30Distinct", (jnat j "spec30Distinct").toOption.getD 0),
+    ("specDistinctAcrossEngines", (jnat j "specDistinctAcrossEngines").toOption.getD 0), ("dateOnlyDifference", jboolD j "dateOnlyDifference")]
+  let want := Json.mkObj [("routesDistinct", (1 : Nat)), ("spec30Distinct", (1 : Nat)), ("specDistinctAcrossEngines", (1 : Nat)), ("dateOnlyDifference", true)]
+  return { model := want, implView := view det, implFails := fails, nontrivial := true, notes := [s!"d:runs={n "runs"}"] }
+
+def checkC19 (_p : PProject) (impl : Json) : PropOut := Id.run do
+  let reps := strList impl "repeats"
+  if !accepted impl || reps.isEmpty then
+    return { model := Json.str "not-accepted", implView := Json.str "not-accepted", nontrivial := false, notes := ["d:not-accepted"] }
+  let counts := (jarrD impl "graphCounts").toList.filterMap (·.getNat?.toOption)
+  let mut fails : List String := []
+  if !(reps.all (· = "same")) then fails := fails ++ [s!"repeated-analysis-differs:{reps}"]
+  if jstrD impl "fresh" ≠ "same" then fails := fails ++ [s!"fresh-session-differs:{jstrD impl "fresh"}"]
+  if !(counts.all (· = counts.headD 0)) then fails := fails ++ [s!"graph-grows:{counts}"]
+  let view := Json.mkObj [("repeats", Json.arr (reps.map Json.str).toArray), ("fresh", jstrD impl "fresh"), ("stable", counts.all (· = counts.headD 0))]
+  let want := Json.mkObj [("repeats", Json.arr (reps.map fun _ => Json.str "same").toArray), ("fresh", "same"), ("stable", true)]
+  return { model := want, implView := view, implFails := fails, nontrivial := true, notes := [s!"d:rounds={reps.length}"] }
+
 def projHandler : Handler := fun prop input impl => do
   let p := parseProject input
   let implJ := impl.getD Json.null
   let out : PropOut ← match prop with
     | "C10" => pure (checkC10 p implJ)
     | "C18" => pure (checkC18 p implJ)
+    | "C13" => pure (checkC13 p implJ)
+    | "C19" => pure (checkC19 p implJ)
     | q => throw s!"mode proj: no check for property {q}"
   let tag (pre : String) (f : String) :=
     if f.length > 4 && f.get 0 = 'C' && (f.splitOn "-F").length > 1 && (f.splitOn ":").length > 1 && ((f.splitOn ":")[0]!).length ≤ 8
